@@ -13,7 +13,7 @@
       the string literals of a are non-blank.  Inside the property's grammar (strict
       primitives) it always holds: [C13_subtype_sound_grammar]. *)
 From Coq Require Import List String NArith ZArith Bool.
-From MV Require Import Base.Sx Schema.Subtype Schema.SubtypeProofs.
+From MV Require Import Base.Sx Schema.Subtype Schema.SubtypeProofs Schema.SubtypeComplete.
 Import ListNotations.
 Local Open Scope string_scope.
 
@@ -108,6 +108,80 @@ Theorem C13_checked_chain : forall pred W, conforming pred W ->
 Proof. exact checked_chain_sound. Qed.
 Print Assumptions C13_checked_chain.
 
+(** On a fragment the check DECIDES inclusion.  [frag]: a strict primitive, a Literal,
+    None, or a flat Union/Optional of those.  [frag_pair a b]: both in [frag], the Literal
+    wrapper agrees at top level ([is_lit]), and literals never face strict primitives of
+    the same JSON family ([apart]).  Completeness ... *)
+Theorem C13_subtype_complete_fragment : forall pred a b,
+  frag_pair a b = true ->
+  (forall j, accepts pred a j = true -> accepts pred b j = true) ->
+  subtype pred a b = true.
+Proof. exact subtype_complete_fragment. Qed.
+Print Assumptions C13_subtype_complete_fragment.
+
+(** ... and with soundness, the property's second sentence as an equivalence there:
+    an undeclared override is refused iff its type admits a value the parent type rejects
+    (the witness is found among the finitely many candidates [cands a]). *)
+Theorem C13_refused_iff_witness_fragment : forall pred a b,
+  frag_pair a b = true ->
+  (subtype pred a b = false <->
+   exists j, accepts pred a j = true /\ accepts pred b j = false).
+Proof. exact refused_iff_witness_fragment. Qed.
+Print Assumptions C13_refused_iff_witness_fragment.
+
+(** Outside [frag_pair] the check is conservative; each condition of [frag_pair] is
+    needed: these four overrides admit no value the parent rejects, and are refused. *)
+Theorem C13_incomplete_witness_literal_wrapper :
+  (let a := TLit [LStr "a"] in let b := TOpt (TLit [LStr "a"]) in
+   frag a = true /\ frag b = true /\ apart a b = true /\ subtype nopred a b = false /\
+   cle nopred a b = true) /\
+  (forall j, accepts nopred (TLit [LStr "a"]) j = true ->
+             accepts nopred (TOpt (TLit [LStr "a"])) j = true).
+Proof. exact (conj incomplete_literal_wrapper incl_literal_wrapper). Qed.
+Print Assumptions C13_incomplete_witness_literal_wrapper.
+
+Theorem C13_incomplete_witness_strlit_strictstr :
+  (let a := TOpt (TLit [LStr "a"]) in let b := TOpt (TPrim true KStr) in
+   frag a = true /\ frag b = true /\ is_lit a = is_lit b /\ apart a b = false /\
+   subtype nopred a b = false) /\
+  (forall j, accepts nopred (TOpt (TLit [LStr "a"])) j = true ->
+             accepts nopred (TOpt (TPrim true KStr)) j = true).
+Proof. exact (conj incomplete_strlit_strictstr incl_strlit_strictstr). Qed.
+Print Assumptions C13_incomplete_witness_strlit_strictstr.
+
+Theorem C13_incomplete_witness_bool_literals :
+  (let a := TOpt (TPrim true KBool) in let b := TOpt (TLit [LBool true; LBool false]) in
+   frag a = true /\ frag b = true /\ is_lit a = is_lit b /\ apart a b = false /\
+   subtype nopred a b = false) /\
+  (forall j, accepts nopred (TOpt (TPrim true KBool)) j = true ->
+             accepts nopred (TOpt (TLit [LBool true; LBool false])) j = true).
+Proof. exact (conj incomplete_bool_literals incl_bool_literals). Qed.
+Print Assumptions C13_incomplete_witness_bool_literals.
+
+Theorem C13_incomplete_witness_numlit_prims :
+  (forall j, accepts nopred (TOpt (TLit [LInt 5])) j = true ->
+             accepts nopred (TUnion [TPrim true KInt; TPrim true KFloat; TNone]) j = true) /\
+  subtype nopred (TOpt (TLit [LInt 5])) (TUnion [TPrim true KInt; TPrim true KFloat; TNone]) = false.
+Proof. exact (conj incl_numlit_prims (proj1 (proj2 (proj2 (proj2 (proj2 incomplete_numlit_prims)))))). Qed.
+Print Assumptions C13_incomplete_witness_numlit_prims.
+
+(** A world built class by class — every added class has a present base, a new class id,
+    passes [check_child] against its base without declared overrides, and uses only
+    already present classes as nested types of overridden fields — is conforming: this
+    discharges the premise [conforming pred W] of the theorems above for worlds built in
+    registration order. *)
+Theorem C13_world_checked : forall pred steps,
+  steps_ok pred [] steps -> conforming pred (W_of (build [] steps)).
+Proof. exact world_checked. Qed.
+Print Assumptions C13_world_checked.
+
+Theorem C13_world_ancestors : forall pred steps s q,
+  steps_ok pred [] steps -> In s (build [] steps) -> In q (s_chain s) ->
+  exists s', In s' (build [] steps) /\ (exists r, s_chain s' = q :: r) /\
+    forall d, nf pred (obj_of s) d = true -> accepts pred (obj_of s') d = true.
+Proof. exact world_ancestors. Qed.
+Print Assumptions C13_world_ancestors.
+
 (** The premises cannot be dropped, and the pinned class-level check is too weak. *)
 Theorem C13_unsafe_pair_refuted :
   exists pred a b j,
@@ -179,3 +253,35 @@ Example C13_nonvacuous_child :
   check_child ex_pred p (mkchild 2%N EAllow [("n", (true, TPrim true KStr))] [] []) = false /\
   check_child ex_pred p (mkchild 2%N EAllow [("n", (true, TPrim true KStr))] ["n"] []) = true.
 Proof. vm_compute. repeat split. Qed.
+
+(** Non-vacuity of the fragment: the check decides these pairs. *)
+Example C13_nonvacuous_fragment :
+  let a := TOpt (TLit [LStr "a"]) in
+  let b := TOpt (TLit [LStr "a"; LStr "b"]) in
+  let c := TUnion [TPrim true KInt; TPrim true KStr; TNone] in
+  frag_pair a b = true /\ subtype ex_pred a b = true /\
+  frag_pair b a = true /\ subtype ex_pred b a = false /\
+  frag_pair (TPrim true KInt) c = true /\ subtype ex_pred (TPrim true KInt) c = true /\
+  frag_pair c (TOpt (TPrim true KInt)) = true /\ subtype ex_pred c (TOpt (TPrim true KInt)) = false /\
+  cands c = [JInt 0; JStr "a"; JNull].
+Proof. vm_compute. repeat split. Qed.
+
+(** Non-vacuity of the world construction: a root and a class narrowing its field. *)
+Example C13_nonvacuous_world_steps :
+  let root := mkschema [1%N] EAllow [("x", (false, TOpt (TPrim true KInt)))] [] in
+  let c := mkchild 2%N EAllow [("x", (false, TPrim true KInt))] [] [] in
+  steps_ok ex_pred [] [SRoot root; SDerive root c] /\
+  List.length (build [] [SRoot root; SDerive root c]) = 2.
+Proof.
+  cbv zeta. split; [|reflexivity]. simpl. split.
+  - exists 1%N. split; auto. intros s [].
+  - split; auto. split; [now left|]. split.
+    + intros s [E|[]]; subst; simpl. intros [H|[]]; discriminate.
+    + split; [vm_compute; reflexivity|].
+      split; [reflexivity|]. split.
+      * simpl. constructor; [intros []|constructor].
+      * split; [intros n []|].
+        intros n h hp [E|[]] [E2|[]]. inversion E; inversion E2; subst. simpl.
+        split; [constructor|]. split; [|reflexivity].
+        constructor. repeat constructor.
+Qed.
